@@ -7,7 +7,7 @@
     ([strconv.ParseFloat] then [json.Marshal]) results that the harness
     computed with the real library for every float token of the input. *)
 From Coq Require Import List NArith Bool.
-From Verif Require Import Lib.Utf8 Jsonx.Lex Jsonx.Tok Jsonx.GoStr Jsonx.Num
+From Verif Require Import Lib.Utf8 Jsonx.Lex Jsonx.Pos Jsonx.Tok Jsonx.GoStr Jsonx.Num
   Jsonx.Parse Jsonx.Json Jsonx.Encode Jsonx.Print.
 Import ListNotations.
 Local Open Scope N_scope.
@@ -62,6 +62,7 @@ Inductive uobs :=
 Inductive ccase :=
 | CUtf8 (input : list N) (runes : list N)
 | CRaw (input : list N) (toks : list (N * list N)) (errs : list N)
+| CRawPos (input : list N) (poss : list (N * N)) (eofp : N * N) (eposs : list (N * N))
 | CFiltered (input : list N) (toks : list (N * list N)) (errs : list N)
 | CPTokens (input : list N) (toks : list (N * list N)) (errs : list N)
 | CToJson (input : list N) (ft : ftable) (out : option (list N)) (errs : list N)
@@ -84,6 +85,8 @@ Definition raw_toks (l : list (token * list ecode)) : list (N * list N) :=
 Definition p_toks (l : list ptok) : list (N * list N) :=
   map (fun t => (tyN (pty t), plit t)) l ++ [(tyN TEOF, [])].
 
+Definition pair_eqb_N (a b : N * N) : bool := (fst a =? fst b) && (snd a =? snd b).
+
 Definition check_case (c : ccase) : bool :=
   match c with
   | CUtf8 input runes => list_N_eqb (utf8_decode input) runes
@@ -91,6 +94,15 @@ Definition check_case (c : ccase) : bool :=
       match jsonx_raw_tokens (utf8_decode input) with
       | Ok raw => list_eqb tok_eqb (raw_toks raw) toks
                   && list_N_eqb (codes (all_lex_errs raw)) errs
+      | _ => false
+      end
+  | CRawPos input poss eofp eposs =>
+      let rs := utf8_decode input in
+      match jsonx_raw_tokens rs with
+      | Ok raw =>
+          let ps := tok_positions is_white start_pos raw rs in
+          list_eqb pair_eqb_N ps poss && pair_eqb_N (eof_pos rs) eofp
+          && list_eqb pair_eqb_N (err_positions raw ps) eposs
       | _ => false
       end
   | CFiltered input toks errs =>
